@@ -67,6 +67,8 @@ Inductive err :=
 | EAutoThetaWithPoling  (* "Can not autocalc theta when periodic poling is enabled..." (config/mod.rs, try_as_spdc) *)
 | ESignalLePump         (* "Signal wavelength must be greater than Pump wavelength" (beam/mod.rs, IdlerBeam::try_new_optimum) *)
 | EBadPeriod            (* "Poling period must be a finite, non-zero number" (config/periodic_poling_config.rs, explicit period) *)
+| EExternalRange        (* "theta_external_deg must be between -90 and 90 degrees" (config/mod.rs, try_as_beam; repair of F7f) *)
+| ETotalReflection      (* "Can not autocalc theta for a signal beyond total internal reflection..." (try_as_spdc; repair of F7b) *)
 | EImpossiblePeriod.    (* "Could not determine poling period from specified values" (periodic_poling.rs, optimum_poling_period) *)
 
 Inductive site :=
